@@ -99,11 +99,11 @@ class Explorer:
                     continue
                 except (S.EngineGap, PathLimit):
                     raise
+                except Exception as e:  # noqa - the function under contract raised
+                    out = ('exc', e)
                 except BaseException as e:  # noqa - e.g. symnp.FrameViolation: a path outcome
                     if type(e).__name__ != 'FrameViolation':
                         raise
-                    out = ('exc', e)
-                except Exception as e:  # noqa - the function under contract raised
                     out = ('exc', e)
                 self.npaths += 1
                 if self.npaths > self.max_paths:
